@@ -165,6 +165,9 @@ func draw(rt *rapid.T) Scenario {
 		if sc.TwinLookbackS < sc.StepS || sc.TwinLookbackS == sc.LookbackS || sc.TwinLookbackS/sc.StepS > 4000 {
 			sc.TwinLookbackS = 0
 		}
+		if sc.TwinLookbackS > 0 && rapid.IntRange(0, 3).Draw(rt, "twinwholesec") > 0 {
+			sc.EndOffsetNs -= sc.EndOffsetNs % int64(time.Second) // see run(): windows are compared on whole-second ends only
+		}
 	}
 	if rapid.IntRange(0, 9).Draw(rt, "faulty") < 2 {
 		modes := []string{simprom.ModeHTTP500, simprom.ModeStall, simprom.ModeTruncated, simprom.ModeBadData, simprom.ModeReset, simprom.ModeJSONServerErr, simprom.ModeJSONCanceled, simprom.ModeTruncClean}
@@ -593,7 +596,12 @@ func run(t *testing.T, sc Scenario, record bool) *detsim.Outcome {
 			}
 		}
 	}
-	if sc.TwinLookbackS > 0 && sc.Fault == nil && firstStr != "" && len(out.Violations) == 0 {
+	if sc.TwinLookbackS > 0 && sc.EndOffsetNs%int64(time.Second) != 0 {
+		// pint's cache identifies a range by its start to the second (successive checks ask for "now minus
+		// lookback" a few milliseconds apart and are meant to share answers), so two windows whose slice starts
+		// differ by a fraction of a second are the same question to it by design: not judged
+		out.Probes["concurrent_windows_skipped_subsecond_end"]++
+	} else if sc.TwinLookbackS > 0 && sc.Fault == nil && firstStr != "" && len(out.Violations) == 0 {
 		// what the second window yields when it is asked alone, on a cold cache
 		alone := runOnce(t, &sc, sc.Scheds[0], false, sc.StepS, 0, sc.TwinLookbackS, 0)
 		both := runOnce(t, &sc, sc.Scheds[len(sc.Scheds)-1], false, sc.StepS, 0, sc.LookbackS, sc.TwinLookbackS)
